@@ -412,6 +412,8 @@ def generate(rng, tier):
     yield ('shared-missing-references', G.render(G.gen_missing(rng, tier)))
     yield ('shared-reference-graphs', G.render(G.gen_graphs(rng, 'quick')))
     yield ('shared-limit-at-every-position', G.render(G.gen_limit_positions(rng, 'quick')[::3 if tier == 'quick' else 1]))
+    # number literals in every spelling (leading zeros, trailing zeros, signs) as placeables, arguments and selectors, with and without a formatter
+    yield ('shared-numbers-english', G.render(only_english(G.gen_numbers(rng, 'quick'))))
     n = 1500 if tier == 'quick' else 40000
     yield ('shared-random-bundles-english', G.render(only_english(G.gen_random(rng, n, allow_ref_resolve=True, formatters=(b'none', b'none', b'num')))))
 
